@@ -80,6 +80,9 @@ pub enum CompressedScalar {
     String(String),
     Bool(bool),
     Null,
+    /// Raw bytes. Appended last: serde variant indices of the older variants are unchanged,
+    /// so snapshots written before this variant existed still decode.
+    Bytes(Vec<u8>),
 }
 
 /// Compressed representation of a tensor value.
